@@ -1,6 +1,8 @@
 import ApolloModel.Model.Proto
 import ApolloModel.Model.Guards
-open Apollo Apollo.Proto Apollo.Guards
+import ApolloModel.Model.GuardsSchema
+import Driver.D14
+open Apollo Apollo.Proto Apollo.Guards Apollo.SchemaValidation Apollo.GuardsSchema
 namespace Driver
 
 /-- `(` child `)` sibling … ; anything else ends the tree -/
@@ -48,6 +50,12 @@ def parseDoc (s : String) : Doc :=
 def outcomeStr : Outcome → String
   | .ok => "o" | .recursed => "r" | .limit => "l"
 
+def rStr : R → String
+  | .ok => "o" | .recursed => "r" | .limit => "l" | .outOfFuel => "F"
+
+/-- the first character of a graph field is a marker (fields may not be empty) -/
+def unmark (s : String) : String := (s.drop 1).toString
+
 def c21 (stream : String) (fs : List String) : String :=
   match stream, fs with
   | "guard", [limit, start, tree] =>
@@ -65,6 +73,24 @@ def c21 (stream : String) (fs : List String) : String :=
       let d := parseDoc doc
       "".intercalate (d.map fun (n, body) => outcomeStr (fragmentCycle d l dl n body).1)
     | _, _ => "bad-case"
+  | "inputguard", [limit, graph] =>
+    -- per input object: the answer of the instrumented search; then the largest stack / depth ghosts
+    let g := decodeIGraph (unmark graph)
+    let l := limit.toNat?.getD 0
+    let rs := (List.range g.length).map fun r => checkInputG g l r
+    let ok := rs.all fun r => r.2.high ≤ l + 1 && r.2.dhigh ≤ l + 1 && ((r.1 == .limit) == decide (l < r.2.high))
+    "".intercalate (rs.map fun r => rStr r.1) ++ (if ok then "" else "!ghost")
+  | "dirguard", [limit, dirs, types] =>
+    let ds := unmark dirs
+    let ts := unmark types
+    let s : DSchema :=
+      { dirs := (ds.splitOn "|").map decodeDArgs,      -- at least one directive; "" = one directive without arguments
+        types := if ts == "" then [] else (ts.splitOn "|").map decodeDType }
+    let l := limit.toNat?.getD 0
+    let rs := (List.range s.dirs.length).map fun d => checkDirectiveG s l d
+    let ok := rs.all fun r => r.2.highD ≤ l + 1 && r.2.highT ≤ l + 1 && r.2.dhigh ≤ 4 * l + 5 &&
+      ((r.1 == .limit) == (decide (l < r.2.highD) || decide (l < r.2.highT)))
+    "".intercalate (rs.map fun r => rStr r.1) ++ (if ok then "" else "!ghost")
   | _, _ => "bad-case"
 
 end Driver
